@@ -6,10 +6,10 @@ from props import c09, c16
 ID = 'C15'
 GEN = ['Hex', 'TraceState', 'B3', 'Baggage']
 LEAN_TARGETS = ['OtelVerif.Props.C15']
-THEOREMS = ['Otel.C15.' + t for t in (
+THEOREMS = ['Otel.KvIdx.trim3_spec', 'Otel.KvIdx.trim1_spec', 'Otel.KvIdx.splitMember_spec', 'Otel.KvIdx.tokens_eq'] + ['Otel.C15.' + t for t in (
     'gen_baggage', 'urlEncodeByte_spec', 'urlDecode_eq', 'decode_never_oob', 'urlDecode_urlEncode', 'pctDecode_pctEncode',
     'set_eq', 'delete_eq', 'set_replaces', 'set_invalid_copy', 'delete_removes', 'set_delete_pure',
-    'parseMember_eq', 'fromHeader_eq', 'fromHeader_never_oob', 'fromHeader_limits', 'fromHeader_only_valid',
+    'parseKv_eq', 'fromHeader_eq', 'fromHeader_never_oob', 'fromHeader_limits', 'fromHeader_only_valid',
     'member_roundtrip', 'toHeader_spec', 'fromHeader_toHeader', 'built_entries', 'fromHeader_toHeader_built',
     'fromHeader_toHeader_trailing_space_witness', 'fromHeader_toHeader_comma_in_metadata_witness',
     'toHeader_eq_nil_iff', 'baggage_extract_eq', 'extract_empty_leaves_context', 'extract_installs_parsed', 'baggage_inject_eq',
@@ -24,8 +24,9 @@ RULE = ('Set/Delete/Get/ToHeader/round-trip sequences over a small key pool with
         'ordered subsets of {HttpTraceContext, B3 single, B3 multi, Jaeger, Baggage} as a composite (installed through the global '
         'propagator slot): inject, round trip, extract with a different id per header, extract of junk. '
         'non-trivial = a non-empty baggage / header / propagator list is involved; distinct = distinct case line')
-TRUSTED = ['memory safety of the C++ (no out-of-bounds read) is shown by ASan/UBSan runs on exact-size buffers; decode_never_oob is about the '
-           'index-explicit model of UrlDecode; the tokenizer (find/Trim/substr) is modelled at list level',
+TRUSTED = ['memory safety of the C++ (no out-of-bounds read) is shown by ASan/UBSan runs on exact-size buffers; decode_never_oob / '
+           'fromHeader_never_oob are about the index-explicit model of UrlDecode, StringUtil::Trim and KeyValueStringTokenizer::next '
+           '(string_view::find and NumTokens, which index nothing themselves, are taken at list level)',
            'std::isalnum / isspace / isdigit / toupper of the C library in the "C" locale']
 ASSUMPTIONS = ['the round trip requires that the metadata part of a value does not end in white space (D18: the tokenizer trims list members) '
                'and holds no unescaped ","; both excluded points are run on the real code and proved as witnesses in the model',
@@ -594,7 +595,7 @@ LEVEL_TEXT = ('Lean 4 theorems over an executable model of baggage.h / kv_proper
 LEVEL_NOTE = ('Trusted: Lean kernel; axioms propext/Quot.sound/Classical.choice at most; tools/gen_c15.py; harness and generators; the C '
               'library character classes. Partial: memory safety of the C++ and "the original baggage is unchanged" as a fact about heap '
               'objects are shown by sanitizer runs and re-reading every earlier baggage after every operation, not by a theorem (the model is '
-              'functional); the tokenizer is modelled at list level. The round-trip theorem carries the explicit hypothesis that metadata holds '
+              'functional). The round-trip theorem carries the explicit hypothesis that metadata holds '
               'no "," and does not end in white space (D18, spec-conformant trimming): both excluded points are kernel-checked witnesses and '
               'corpus cases. Metadata taken from a header is observed up to its first NUL byte (C-string storage).')
 DESIGN_REF = 'DESIGN.md section 4, C15; section 5, D18'
